@@ -12,3 +12,10 @@ open Comrak.C19
 #print axioms escapeHref_not_injective
 #print axioms hrefDecode_escapeHref_partial
 #print axioms escapeHref_injective_partial
+#print axioms openTag_complete
+#print axioms openTag_injective
+#print axioms openTag_raw_name_counterexample
+#print axioms entityDecode_escapeHref_eq_pctEnc
+#print axioms escapeHref_decode_equiv
+#print axioms escapeHref_injective_mod_pct
+#print axioms escapeHref_decode_order_counterexample
